@@ -91,7 +91,7 @@ Fixpoint tkeq (a b : ty) {struct a} : bool :=
          | [], [] => true
          | x :: r, y :: r' => tkeq x y && go r r'
          | _, _ => false
-         end) ts ts' && Bool.eqb g g' && Z.eqb lo lo' && Z.eqb hi hi'
+         end) ts ts' && Z.eqb lo lo' && Z.eqb hi hi'   (* Parameters() writes givenOrActualSize: whether the size was given does not show *)
   | TStruct ms, TStruct ms' =>
       (fix go (l l' : list (str * (ty * ty))) {struct l} : bool :=
          match l, l' with
